@@ -230,6 +230,7 @@ def gen_case(rng, n_ops, faults=False, crashes=False):
             att = {}
     if me_on and rng.chance(1, 2):
         out.extend(settle(users, ntop))
+    out = with_deluser(rng.fork("deluser"), out, faults)
     if any(o.startswith("sess S8 ") for o in out):
         # after a restart the sessions stand for new connections, logged in again - which an account that is gone cannot do: its
         # session goes straight back to being logged out
@@ -239,6 +240,85 @@ def gen_case(rng, n_ops, faults=False, crashes=False):
             if o == "restart":
                 fixed.append("sub S8 me")
         out = fixed
+    return out
+
+
+def pick_deluser(r2):
+    """one {del what=user}: an account deletes itself, root deletes somebody's, somebody else tries to"""
+    k = r2.below(10)
+    hard = " hard=1" if r2.chance(1, 2) else ""
+    if k < 5:
+        return f"deluser {r2.choice(['S1', 'S2', 'S3', 'S4', 'S5', 'S6'])}{hard}"
+    if k < 8:
+        return f"deluser S7 user={r2.choice(['U1', 'U2', 'U3', 'U4'])}{hard}"
+    if k < 9:
+        return f"deluser {r2.choice(['S1', 'S2', 'S6'])} user={r2.choice(['U1', 'U2', 'U3'])}{hard}"
+    return f"deluser S7 user=X{hard}"
+
+
+def with_deluser(r2, out, faults):
+    """in one history out of three an account (sometimes two) is deleted somewhere in the second half; the choices come from a
+    generator of their own, so that the rest of the history is what it would have been"""
+    if not r2.chance(1, 3):
+        return out
+    first = next((i for i, o in enumerate(out) if o.split(" ")[0] not in ("reset", "user", "sess")), len(out))
+    for _ in range(1 + r2.below(2)):
+        lo = first + (len(out) - first) * 2 // 5
+        pos = lo + r2.below(max(1, len(out) - lo + 1))
+        # not between a fault plan and the request it is meant for
+        while pos > 0 and pos < len(out) and out[pos - 1].split(" ")[0] in ("fail", "crash"):
+            pos += 1
+        ins = [pick_deluser(r2)]
+        if faults and r2.chance(1, 4):
+            ins.insert(0, f"fail {1 + r2.below(6)}")
+        out = out[:pos] + ins + out[pos:]
+    return out
+
+
+def scenario_deluser(rng):
+    """accounts are deleted while their sessions are attached here and there: the owner of a group, a member, a p2p partner whose
+    topic is or is not loaded, a channel reader; by themselves or by root; hard or soft; then the others look around"""
+    out = _preamble(rng)
+    hard = " hard=1" if rng.chance(1, 2) else ""
+    for s in ("S1", "S2", "S3", "S4", "S5"):
+        if rng.chance(2, 3):
+            out.append(f"sub {s} me")
+    out.append("newgrp S1" + (" chan=1" if rng.chance(1, 3) else ""))
+    chan = out[-1].endswith("chan=1")
+    out.append("sub S2 T1")
+    out.append(f"sub S3 {'chn:' if chan and rng.chance(1, 2) else ''}T1")
+    out.append("newgrp S2")
+    out.append("sub S1 T2")
+    if rng.chance(1, 2):
+        out.append("sub S4 T2")
+    out.append("sub S1 U2")
+    out.append("sub S2 U1")
+    if rng.chance(1, 2):
+        out.append("sub S3 U1")
+    out.append("pub S1 T1 C1")
+    out.append("pub S2 T2 C2")
+    out.append("pub S1 U2 C3")
+    if rng.chance(1, 2):
+        out.append("delmsg S1 T2 1:2")
+    if rng.chance(1, 2):
+        out += ["leave S1 U2", "leave S2 U1", "unload P:U1:U2"]
+    if rng.chance(1, 3):
+        out += ["leave S1 T1", "leave S2 T1", f"leave S3 {'chn:' if chan else ''}T1", "leave S4 T1", "unload T1"]
+    _maybe_restart(rng, out, 8)
+    victim = rng.choice(["U1", "U1", "U2", "U3"])
+    by = rng.choice(["self", "self", "root"])
+    if by == "root":
+        out.append(f"deluser S7 user={victim}{hard}")
+    else:
+        out.append(f"deluser {dict(U1='S1', U2='S2', U3='S3')[victim]}{hard}")
+    out += ["get S2 me sub", "get S1 me sub", "get S3 me sub", "get S2 T2 sub", "get S3 T1 sub", "get S1 T2 desc", "get S2 T1 desc"]
+    out += ["pub S2 T2 C4", "pub S1 T2 C5", "pub S2 U1 C6", "sub S2 U1", "sub S1 U2", "sub S1 me", "sub S3 T1", "sub S2 T1"]
+    if rng.chance(1, 2):
+        out.append("restart")
+        out += ["sub S1 me", "sub S2 me", "sub S3 me", "get S2 me sub", "sub S2 U1", "sub S2 T2", "get S2 T2 sub", "pub S2 T2 C7"]
+    if rng.chance(1, 2):
+        out.append(f"deluser S7 user={rng.choice(['U1', 'U2', 'U3', 'U4'])}{hard}")
+    out.extend(settle(["U1", "U2", "U3", "U4"], 2))
     return out
 
 
@@ -612,6 +692,10 @@ def gen_world(rng, tier):
         crashes = c % 3 == 2
         for l in gen_case(rng, 30 + rng.below(90), faults=faults, crashes=crashes):
             yield l
+        if i % 12 == 5:
+            # the histories around a deleted account are extra: drawn from a generator of their own, the rest of the stream is unchanged
+            for l in scenario_deluser(rng.fork(f"deluser-scenario-{i}")):
+                yield l
 
 
 def classify(op, out):
@@ -671,7 +755,8 @@ WORLD_TRUSTED = [
     "store adapter (harness/overlay/main/verif_memadapter_test.go) written from the MySQL adapter's statements; the adapter is part "
     "of the trusted base, the goroutine scheduling of the real server is replaced by a deterministic pump",
     "Model/World.lean, TopicGrp.lean, TopicOps.lean, TopicReq.lean (group topics), TopicChan.lean (channels), TopicP2P.lean (peer-to-peer topics) and "
-    "TopicMe.lean (the users' `me` topics, the notifications between topics and the on/off handshake of pres.go) and TopicFnd.lean (the `fnd` topics and the search) are a hand "
+    "TopicMe.lean (the users' `me` topics, the notifications between topics and the on/off handshake of pres.go), TopicFnd.lean (the `fnd` topics and the search) and "
+    "TopicUser.lean (the deletion of an account) are a hand "
     "transcription of the handlers; they are tied to the code only by the differential run (same requests, byte-identical replies, "
     "traffic, adapter calls and state digests)",
     "history monitors (vlib/worldmon.py) decide the property on the implementation's own output when the tie is broken",
@@ -686,6 +771,9 @@ WORLD_ASSUMPTIONS = [
     "under the other spelling",
     "accounts carry the default access the server stores for an account (within JRWPAS / JRWPA, with A unless N: user.go:97-117)",
     "at most one injected store failure or crash point per request",
+    "{del what=user} runs in the session's goroutine while the evicted sessions clean up and the hub stops the account's topics in theirs: one "
+    "schedule of the three is run and modelled (the evicted sessions first, then the hub, then the rest of the handler); no crash point "
+    "is placed inside it; authenticators are not configured (their records are not part of the store model)",
 ]
 
 
